@@ -477,6 +477,7 @@ impl Driver for RealDriver {
 }
 
 fn do_remapping_loop_one_device(driver: &mut impl Driver, layout: Layout, verbose: bool) -> Result<(), String> {
+  #[cfg(ellbur_totalmapper_verif)] #[allow(unused_imports)] use self::verif_hooks::{Instant, thread};
   let mut mapper = key_transforms::Mapper::for_layout(&layout);
   let mut working_repeat: WorkingRepeat = WorkingRepeat::Idle;
   
@@ -612,6 +613,87 @@ fn do_remapping_loop_one_device(driver: &mut impl Driver, layout: Layout, verbos
         }
       }
     }
+  }
+}
+
+// Verification hooks: a public scripted-driver seam onto the private per-device
+// loop, and a virtual clock that shadows Instant / thread inside that loop only.
+#[cfg(ellbur_totalmapper_verif)]
+pub mod verif_hooks {
+  use super::{Driver, PollResult, Device, Next, do_remapping_loop_one_device};
+  use crate::keys::{Layout, Event};
+  pub use crate::tablet_mode_switch_reader::TableModeEvent;
+  use std::cell::Cell;
+  use std::time::Duration;
+
+  pub enum VDevice { Keyboard, Tablet }
+  pub enum VPoll { DeviceEvent(Vec<VDevice>), TimedOut, Interrupted }
+  pub enum VNext<T> { End, Busy, One(T) }
+
+  pub trait ScriptedDriver {
+    fn register_poll(&mut self) -> Result<(), String>;
+    fn poll(&mut self, timeout: Option<Duration>) -> Result<VPoll, String>;
+    fn next_keyboard(&mut self) -> Result<VNext<Event>, String>;
+    fn next_tablet(&mut self) -> Result<VNext<TableModeEvent>, String>;
+    fn send(&mut self, evs: &Vec<Event>) -> Result<(), String>;
+  }
+
+  struct Adapter<'a> { d: &'a mut dyn ScriptedDriver }
+
+  impl<'a> Driver for Adapter<'a> {
+    type PollRegistry = ();
+    fn register_poll(&mut self) -> Result<(), String> { self.d.register_poll() }
+    fn poll(&mut self, _r: &mut (), timeout: Option<Duration>) -> Result<PollResult, String> {
+      Ok(match self.d.poll(timeout)? {
+        VPoll::TimedOut => PollResult::TimedOut,
+        VPoll::Interrupted => PollResult::Interrupted,
+        VPoll::DeviceEvent(ds) => PollResult::DeviceEvent(ds.into_iter().map(|d| match d { VDevice::Keyboard => Device::Keyboard, VDevice::Tablet => Device::Tablet }).collect())
+      })
+    }
+    fn next_keyboard(&mut self) -> Result<Next<Event>, String> {
+      Ok(match self.d.next_keyboard()? { VNext::End => Next::End, VNext::Busy => Next::Busy, VNext::One(e) => Next::One(e) })
+    }
+    fn next_tablet(&mut self) -> Result<Next<TableModeEvent>, String> {
+      Ok(match self.d.next_tablet()? { VNext::End => Next::End, VNext::Busy => Next::Busy, VNext::One(e) => Next::One(e) })
+    }
+    fn send(&mut self, evs: &Vec<Event>) -> Result<(), String> { self.d.send(evs) }
+  }
+
+  pub fn run_one_device(d: &mut dyn ScriptedDriver, layout: Layout) -> Result<(), String> {
+    do_remapping_loop_one_device(&mut Adapter { d }, layout, false)
+  }
+
+  thread_local! {
+    static BASE: std::time::Instant = std::time::Instant::now();
+    static OFFSET_US: Cell<u64> = Cell::new(0);
+    static SLEPT_MS: Cell<u64> = Cell::new(0);
+    static NOW_CALLS: Cell<u64> = Cell::new(0);
+  }
+  pub fn clock_reset() { OFFSET_US.with(|o| o.set(0)); SLEPT_MS.with(|o| o.set(0)); NOW_CALLS.with(|o| o.set(0)); }
+  pub fn clock_advance_us(us: u64) { OFFSET_US.with(|o| o.set(o.get() + us)); }
+  pub fn clock_now_us() -> u64 { OFFSET_US.with(|o| o.get()) }
+  pub fn clock_slept_ms() -> u64 { SLEPT_MS.with(|o| o.get()) }
+  pub fn clock_now_calls() -> u64 { NOW_CALLS.with(|o| o.get()) }
+
+  pub struct Instant;
+  impl Instant {
+    pub fn now() -> std::time::Instant {
+      NOW_CALLS.with(|o| o.set(o.get() + 1));
+      BASE.with(|b| *b) + Duration::from_micros(OFFSET_US.with(|o| o.get()))
+    }
+  }
+  pub mod thread {
+    pub fn sleep(d: std::time::Duration) { super::SLEPT_MS.with(|o| o.set(o.get() + d.as_millis() as u64)); }
+  }
+
+  // Device-selection wrappers (private flag_excluded / flag_excluded_input_devices).
+  pub fn flag_excluded_names(devices: Vec<(std::path::PathBuf, String)>, excludes: &[&str]) -> Vec<(std::path::PathBuf, String, bool)> {
+    let devs = devices.into_iter().map(|(dev_path, name)| crate::keyboard_listing::ExtractedKeyboard { dev_path, name }).collect();
+    super::flag_excluded(devs, excludes).into_iter().map(|d| (d.extracted_keyboard.dev_path, d.extracted_keyboard.name, d.excluded)).collect()
+  }
+  pub fn flag_excluded_input_device_names(devices: Vec<(std::path::PathBuf, String, bool)>, excludes: &[&str]) -> Vec<(std::path::PathBuf, String, bool, bool)> {
+    let devs = devices.into_iter().map(|(dev_path, name, is_keyboard)| crate::keyboard_listing::ExtractedInputDevice { dev_path, name, is_keyboard }).collect();
+    super::flag_excluded_input_devices(devs, excludes).into_iter().map(|d| (d.extracted_keyboard.dev_path, d.extracted_keyboard.name, d.extracted_keyboard.is_keyboard, d.excluded)).collect()
   }
 }
 
